@@ -584,9 +584,12 @@ def source_budget(ctx, o):
     val = [a.arg for a in fn2.args.args][1]
     good = False
     if len(stores) == 1:
+        defs2 = single_defs(fn2)       # also resolves the explicit clamp `v = a; if v < b: v = b` to max(a, b)
         v = stores[0].value
+        if isinstance(v, ast.Name) and v.id in defs2:
+            v = defs2[v.id]
         if isinstance(v, ast.Call) and isinstance(v.func, ast.Name) and v.func.id == 'max' and len(v.args) == 2:
-            forms = sorted(N.norm(a).key() for a in v.args)
+            forms = sorted(N.norm(a, defs2).key() for a in v.args)
             good = forms == sorted(['self._produced_parts', N.norm(ast.parse(f'self._max_produced_parts + {val}', mode='eval').body).key()])
     if not good:
         o.fail(P, 'Source.adjust_part_count', stores[0] if stores else 'self._max_produced_parts = max(...)',
